@@ -29,7 +29,8 @@
 //!      open and a release per cursor drop says which names are in `sst/` and which have left;
 //!      compared with the real listing after every event.
 //!
-//! Streams: `held` (seeded histories), `d5` (directed: the smallest histories in which the files a
+//! Streams: `limit` (directed: a cursor that let go of its files goes back to them while another
+//! cursor holds every slot of a store sitting exactly at `--max-open-files`), `held` (seeded histories), `d5` (directed: the smallest histories in which the files a
 //! cursor has not opened yet are retired under it), `conc` (writers, the flush loop and the
 //! compaction loop as real threads while the main thread steps cursors opened at quiescent
 //! points; traces vary with the schedule, verdicts do not), `window` (directed through the pause
@@ -1324,6 +1325,231 @@ pub fn run_d5(rec: &mut Recorder, variant: u64) -> Vec<String> {
     finish_hist(rec, h)
 }
 
+// ============================================================================ open-file limit ==
+
+/// class (an input predicate): the tree's FileManager has exactly `--max-open-files` distinct files
+/// open, all of them held by another reader, and a held cursor re-opens one of THOSE files (it let
+/// go of its handles when it ran off the end of its files); sharing an open file needs no new
+/// descriptor, so the limit is no reason to refuse
+const LIMIT: &str = "held-cursor-at-open-file-limit-refused-a-file-another-reader-has-open";
+
+fn options_limited(cfg: &Cfg, root: &str, max_open: u64) -> lsmtk::LsmtkOptions {
+    use arrrg::CommandLine;
+    let args: Vec<String> = vec![
+        "--path".into(),
+        root.into(),
+        "--memtable-size-bytes".into(),
+        cfg.memtable_bytes.to_string(),
+        "--sst-target-file-size".into(),
+        cfg.target_file.to_string(),
+        "--sst-minimum-file-size".into(),
+        cfg.min_file.to_string(),
+        "--sst-target-block-size".into(),
+        cfg.target_block.to_string(),
+        "--l0-mandatory-compaction-threshold-files".into(),
+        cfg.l0_mandatory_files.to_string(),
+        "--l0-write-stall-threshold-files".into(),
+        cfg.l0_stall_files.to_string(),
+        "--max-compaction-files".into(),
+        cfg.max_compaction_files.to_string(),
+        "--gc-policy".into(),
+        format!("versions = {}", cfg.gc_versions),
+        "--mani-log-rollover-ratio".into(),
+        cfg.mani_ratio.to_string(),
+        "--sst-cache-bytes".into(),
+        "0".into(),
+        "--max-open-files".into(),
+        max_open.to_string(),
+    ];
+    let refs: Vec<&str> = args.iter().map(|s| s.as_str()).collect();
+    let (opts, free) = lsmtk::LsmtkOptions::from_arguments_relaxed("blueharness", &refs);
+    assert!(free.is_empty(), "free args: {:?}", free);
+    opts
+}
+
+fn err_limit(e: &lsmtk::SError) -> String {
+    let s = format!("{:?}{}", e, e);
+    if s.contains("too-many-open-files") || s.contains("TooManyOpenFiles") || s.contains("too_many_open_files") {
+        "toomanyopenfiles".to_string()
+    } else {
+        err_enum(e)
+    }
+}
+
+/// one call of a cursor, rendered as `Hist::step_cursor` renders it
+fn call_cursor(cur: &mut dyn Cursor, op: &COp) -> (String, Result<Shown, String>) {
+    let r = guarded(AssertUnwindSafe(|| -> Result<Option<(Vec<u8>, u64, Option<Vec<u8>>)>, lsmtk::SError> {
+        match op {
+            COp::First => cur.seek_to_first()?,
+            COp::Last => cur.seek_to_last()?,
+            COp::Next => cur.next()?,
+            COp::Prev => cur.prev()?,
+            COp::Seek(k) => cur.seek(k)?,
+        }
+        Ok(cur.key_value().map(|kv| (kv.key.to_vec(), kv.timestamp, kv.value.map(|v| v.to_vec()))))
+    }));
+    match r {
+        Ok(Ok(x)) => {
+            let rendered = match &x {
+                None => "none".to_string(),
+                Some((k, t, Some(v))) => format!("{}@{}={}", hex(k), t, hex(v)),
+                Some((k, t, None)) => format!("{}@{}!", hex(k), t),
+            };
+            (rendered, Ok(x.map(|(k, _, v)| (k, v.unwrap_or_else(|| b"<tombstone>".to_vec())))))
+        }
+        Ok(Err(e)) => {
+            let e = err_limit(&e);
+            (format!("err:{}", e), Err(e))
+        }
+        Err(p) => (format!("err:panic:{}", p.chars().filter(|c| !c.is_whitespace()).take(40).collect::<String>()), Err("panic".to_string())),
+    }
+}
+
+/// stream `limit` (directed; NOT part of the random streams: under a small `--max-open-files` the
+/// store refuses legitimately whenever a reader needs a file nobody has open).  `nfiles` level-0
+/// files (one flush each, no compaction, SST cache off) in a store allowed `nfiles` open files.
+/// Cursor A walks its whole snapshot in one direction and off its end: its lazy cursors let go of
+/// their handles.  Cursor B is opened and stepped onto an entry: it holds every file, i.e. every
+/// slot.  A is then walked back over the whole snapshot: every file it re-opens is open already
+/// (B has it), so no call may fail and A shows its snapshot.  Then B is walked to its end.
+///  * oracle: every call of A and B shows what the reference cursor over the open-time map shows;
+///  * correspondence: `kvs scan <state at open> :: - - :: <program>` for both cursors;
+///  * that the limit is tight is checked on the same history with one slot less: a positioned
+///    cursor must then be refused (too-many-open-files) when it needs its last file.
+pub fn run_open_file_limit(rec: &mut Recorder, variant: u64) {
+    let cfg = Cfg { memtable_bytes: 1 << 20, target_file: 1 << 22, min_file: 64, target_block: 256, l0_mandatory_files: 8, l0_stall_files: 12, max_compaction_files: 64, gc_versions: 1, mani_ratio: 10 };
+    let nfiles: u64 = if variant % 2 == 0 { 3 } else { 2 };
+    let backward_first = variant / 2 % 2 == 1;
+    let tag = format!("limit{}", variant);
+    let pad = |t: &str| -> Vec<u8> {
+        let mut v = t.as_bytes().to_vec();
+        v.resize(64, b'.');
+        v
+    };
+    // (store root, slots) -> the rendered calls of A and B, their verdicts, the open-time state
+    let run = |slots: u64, root: &str| -> Result<(String, Vec<COp>, Vec<String>, Vec<Result<Shown, String>>, Vec<COp>, Vec<String>, Vec<Result<Shown, String>>, Vec<(Vec<u8>, Vec<u8>)>), String> {
+        let mut sim = Sim::open(root, &cfg)?;
+        sim.kvs = None;
+        sim.kvs = Some(KeyValueStore::open(options_limited(&cfg, root, slots)).map_err(|e| err_limit(&e))?);
+        let keys: [&[u8]; 4] = [b"b", b"m", b"z", b"\xff"];
+        for f in 0..nfiles as usize {
+            sim.apply(&Op::Put(b"a".to_vec(), pad(&format!("a{}", f + 1))))?;
+            sim.apply(&Op::Put(keys[f].to_vec(), pad(&format!("{}{}", f, f + 1))))?;
+            sim.apply(&Op::Flush).map_err(|e| format!("flush: {}", e))?;
+        }
+        let dump = sim.dump().map_err(|e| format!("dump: {}", e))?;
+        if dump.nfiles() as u64 != nfiles {
+            return Err(format!("{} files in the tree, wanted {}", dump.nfiles(), nfiles));
+        }
+        let open_state = state_with_ids(&dump);
+        let snapshot: Vec<(Vec<u8>, Vec<u8>)> = sim.oracle.iter().filter_map(|(k, v)| v.as_ref().map(|v| (k.clone(), v.clone()))).collect();
+        let n = snapshot.len();
+        let (lo, hi): (Bound<Vec<u8>>, Bound<Vec<u8>>) = (Bound::Unbounded, Bound::Unbounded);
+        let (out_op, back_op, start) = if backward_first { (COp::Prev, COp::Next, COp::Last) } else { (COp::Next, COp::Prev, COp::First) };
+        let mut prog_a = vec![start];
+        prog_a.extend(std::iter::repeat(out_op).take(n + 1));
+        let first_half = prog_a.len();
+        prog_a.extend(std::iter::repeat(back_op).take(n + 1));
+        let prog_b: Vec<COp> = std::iter::once(COp::First).chain(std::iter::repeat(COp::Next).take(n + 1)).collect();
+        let (mut ra, mut va, mut rb, mut vb) = (vec![], vec![], vec![], vec![]);
+        {
+            let kvs = sim.kvs();
+            let mut a: Box<dyn Cursor> = Box::new(kvs.range_scan(&lo, &hi).map_err(|e| format!("scan A: {}", err_limit(&e)))?);
+            for op in &prog_a[..first_half] {
+                let (r, v) = call_cursor(a.as_mut(), op);
+                ra.push(r);
+                va.push(v);
+            }
+            // B onto its first entry (variants 1, 3: onto its second): it holds every file
+            let mut b: Box<dyn Cursor> = Box::new(kvs.range_scan(&lo, &hi).map_err(|e| format!("scan B: {}", err_limit(&e)))?);
+            let b_first = if nfiles == 2 { 3 } else { 2 };
+            for op in &prog_b[..b_first] {
+                let (r, v) = call_cursor(b.as_mut(), op);
+                let failed = v.is_err();
+                rb.push(r);
+                vb.push(v);
+                if failed {
+                    break;
+                }
+            }
+            if vb.iter().all(|v| v.is_ok()) {
+                for op in &prog_a[first_half..] {
+                    let (r, v) = call_cursor(a.as_mut(), op);
+                    let failed = v.is_err();
+                    ra.push(r);
+                    va.push(v);
+                    if failed {
+                        break;
+                    }
+                }
+                for op in &prog_b[b_first..] {
+                    let (r, v) = call_cursor(b.as_mut(), op);
+                    let failed = v.is_err();
+                    rb.push(r);
+                    vb.push(v);
+                    if failed {
+                        break;
+                    }
+                }
+            }
+            drop(a);
+            drop(b);
+        }
+        sim.close();
+        Ok((open_state, prog_a, ra, va, prog_b, rb, vb, snapshot))
+    };
+    // one slot less: a cursor positioned on an entry cannot get its last file (it needs all
+    // `nfiles` at once), so with `nfiles` slots cursor B alone fills every slot: the limit of the
+    // run below is tight
+    let tight = match run(nfiles - 1, &scratch_dir(&format!("c07.limit.{}.tight", variant))) {
+        Ok((_, _, ra, _, _, rb, _, _)) => {
+            if std::env::var("BLUE_DEBUG").is_ok() {
+                eprintln!("{} tight: A {:?} B {:?}", tag, ra.iter().map(|x| x.chars().take(90).collect::<String>()).collect::<Vec<_>>(), rb.iter().map(|x| x.chars().take(90).collect::<String>()).collect::<Vec<_>>());
+            }
+            ra.iter().chain(rb.iter()).any(|r| r.contains("toomanyopenfiles"))
+        }
+        Err(e) => {
+            if std::env::var("BLUE_DEBUG").is_ok() {
+                eprintln!("{} tight: {}", tag, e);
+            }
+            e.starts_with("scan ") && e.contains("toomanyopenfiles")
+        }
+    };
+    rec.count(if tight { "limit.one_slot_less_is_refused" } else { "limit.one_slot_less_NOT_refused" });
+    match run(nfiles, &scratch_dir(&format!("c07.limit.{}", variant))) {
+        Err(e) => rec.case(&format!("# {} history", tag), "#", Verdict::Fail { class: "fault-free-op-error".into(), detail: format!("{} {}", tag, e) }, None),
+        Ok((open_state, prog_a, ra, va, prog_b, rb, vb, snapshot)) => {
+            rec.count("limit.histories");
+            for (name, prog, rendered, verdicts) in [("A", &prog_a, &ra, &va), ("B", &prog_b, &rb, &vb)] {
+                let done = rendered.len();
+                let want = ref_run(&snapshot, &prog[..done]);
+                let mut bad = vec![];
+                let mut refused = false;
+                for (j, v) in verdicts.iter().enumerate() {
+                    match v {
+                        Err(e) => {
+                            refused = refused || e.contains("toomanyopenfiles");
+                            bad.push(format!("call {} of cursor {} [{}] failed: {}", j, name, render_ops(&prog[..done]), e));
+                        }
+                        Ok(x) if *x != want[j] => bad.push(format!("call {} of cursor {} [{}] shows {:?}, the store had {:?} there when the scan was opened", j, name, render_ops(&prog[..done]), x.as_ref().map(|(k, v)| format!("{}={}", hex(k), hex(v))), want[j].as_ref().map(|(k, v)| format!("{}={}", hex(k), hex(v))))),
+                        Ok(_) => {}
+                    }
+                }
+                let v = if bad.is_empty() {
+                    Verdict::Ok
+                } else {
+                    Verdict::Fail { class: if refused && name == "A" { LIMIT.to_string() } else if refused { "held-cursor-error".to_string() } else { "held-cursor-differs-from-open-time-snapshot".to_string() }, detail: format!("{}: {} files, --max-open-files {}, SST cache off; cursor A walked {} off its end (it holds no file any more), cursor B opened and stepped onto an entry (it holds all {} files = every slot), A walked back, B walked on: {}", tag, nfiles, nfiles, if backward_first { "backward" } else { "forward" }, nfiles, bad.join("; ")) }
+                };
+                let req = format!("kvs scan {} :: u u :: {}", open_state, render_ops(&prog[..done]));
+                rec.add("limit.cursor_calls", done as u64);
+                rec.case(&req, &rendered.join(" "), v, Some(fnv(format!("{}{}", tag, req).as_bytes())));
+            }
+            let v = if tight { Verdict::Ok } else { Verdict::Fail { class: "machinery".into(), detail: format!("{}: with --max-open-files {} no cursor was refused: the directed history does not sit at the limit", tag, nfiles - 1) } };
+            rec.case(&format!("# {} sits at the limit", tag), "#", v, None);
+        }
+    }
+}
+
 // ==================================================================================== conc ====
 
 /// stream `conc`: the store moves on other threads while the main thread steps its cursors.
@@ -2091,6 +2317,9 @@ pub fn run(args: &Args) {
             logs.push((10000 + v, log));
         }
     }
+    for v in 0..4u64 {
+        run_open_file_limit(&mut rec, v);
+    }
     for hi in 0..nh {
         let t0 = std::time::Instant::now();
         let log = run_history(&mut rec, args.seed, hi, args.thorough);
@@ -2139,7 +2368,7 @@ pub fn run(args: &Args) {
         }
     }
     rec.finish(
-        "five streams. held: seeded single-stepped store histories (preamble of puts/deletes/batches/flushes/compaction steps/verifier passes, then 2-6 episodes); per episode 1-3 range-scan cursors (bounds unbounded/included/excluded over the key alphabet; programs of 3-18 calls: forward walk, backward walk, mixed with seeks and reversals, off-the-end-and-back) are opened between operations or inside a flush/compaction (observer call-outs), held across 0-6 events (write bursts, flush, compaction steps, verifier pass, retire = flush + compact until nothing is selectable + two verifier passes), stepped 0-5 calls between events, dropped early or at the end; SST cache 0 / 300 bytes / 64 MiB; clean reopens only between episodes. d5: twelve directed variants of the smallest history of finding D-5. conc: two writer threads, the flush loop and the compaction loop run as threads while the main thread walks cursors opened at quiescent points. window: 40 (thorough 120) directed schedules - a batch writer is parked between two of its memtable inserts (pause hook at kvs.write.insert), a side writer inserts its entry and queues behind it in the wait list, scans are opened in that window (one walked before the batch writer is released, one not touched until afterwards), the writers are released and the scans walked again forward or backward; the base state in the memtable or flushed to files; request = snap open (state dumped in the window + the sequence numbers in flight as the hooks saw them under the store mutex + program interleaved with the entries that arrived later). race2: 300 (thorough 1200) scans opened at arbitrary moments while a batch writer (all keys of a batch carry the round number) and a side writer run freely, the batch inserts widened by the pause hook, each scan walked twice (second walk forward or backward): one round per scan, both walks equal, round between last acknowledged before and last started after the open, read timestamp below every write in flight (one case). Per cursor two requests (kvs scan = open-time state + whole program; snap run = the program interleaved with the later writes into the captured memtable), per store incarnation one refs run. non-trivial (cursor) = at least two live keys in range at open time, held across at least one event other than a verifier pass that removed nothing of it, and stepped after it; (refs) = at least one snapshot and one install; distinct by request",
+        "six streams. limit (directed, four variants): 2 or 3 level-0 files in a store allowed exactly that many open files (SST cache off), cursor A walked off its end forward or backward (holds no file), cursor B positioned on an entry (holds every slot), A walked back over its snapshot, B walked on; both against kvs scan and the reference cursor; the same history with one slot less must be refused at the scan open (the limit is tight); small limits appear in no other stream. held: seeded single-stepped store histories (preamble of puts/deletes/batches/flushes/compaction steps/verifier passes, then 2-6 episodes); per episode 1-3 range-scan cursors (bounds unbounded/included/excluded over the key alphabet; programs of 3-18 calls: forward walk, backward walk, mixed with seeks and reversals, off-the-end-and-back) are opened between operations or inside a flush/compaction (observer call-outs), held across 0-6 events (write bursts, flush, compaction steps, verifier pass, retire = flush + compact until nothing is selectable + two verifier passes), stepped 0-5 calls between events, dropped early or at the end; SST cache 0 / 300 bytes / 64 MiB; clean reopens only between episodes. d5: twelve directed variants of the smallest history of finding D-5. conc: two writer threads, the flush loop and the compaction loop run as threads while the main thread walks cursors opened at quiescent points. window: 40 (thorough 120) directed schedules - a batch writer is parked between two of its memtable inserts (pause hook at kvs.write.insert), a side writer inserts its entry and queues behind it in the wait list, scans are opened in that window (one walked before the batch writer is released, one not touched until afterwards), the writers are released and the scans walked again forward or backward; the base state in the memtable or flushed to files; request = snap open (state dumped in the window + the sequence numbers in flight as the hooks saw them under the store mutex + program interleaved with the entries that arrived later). race2: 300 (thorough 1200) scans opened at arbitrary moments while a batch writer (all keys of a batch carry the round number) and a side writer run freely, the batch inserts widened by the pause hook, each scan walked twice (second walk forward or backward): one round per scan, both walks equal, round between last acknowledged before and last started after the open, read timestamp below every write in flight (one case). Per cursor two requests (kvs scan = open-time state + whole program; snap run = the program interleaved with the later writes into the captured memtable), per store incarnation one refs run. non-trivial (cursor) = at least two live keys in range at open time, held across at least one event other than a verifier pass that removed nothing of it, and stepped after it; (refs) = at least one snapshot and one install; distinct by request",
         &[],
     );
 }
